@@ -165,7 +165,17 @@ func recoverImage(tr *ktrace.Trace, img ktrace.Image, dir string, keys []string)
 }
 
 func runRecover(dir string, keys []string) (d sess.Dump, exit int, stderr string, err error) {
-	cmd := exec.Command(binPath("vchild"), append([]string{"recover", dir}, keys...)...)
+	return runChildDump(binPath("vchild"), append([]string{"recover", dir}, keys...)...)
+}
+
+func hashHex(b []byte) string {
+	h := sha256.Sum256(b)
+	return hex.EncodeToString(h[:8])
+}
+
+// runChildDump runs a vchild mode that prints a sess.Dump.
+func runChildDump(bin string, args ...string) (d sess.Dump, exit int, stderr string, err error) {
+	cmd := exec.Command(bin, args...)
 	var out, errb bytes.Buffer
 	cmd.Stdout, cmd.Stderr = &out, &errb
 	cmd.Env = append(os.Environ(), "VERIF_MARKERS=")
